@@ -8,6 +8,7 @@ CONSTANTS
  GenLen = 30
  Crashes = TRUE
  FaultAfter = 99
+ StopFrom = 2
  GenCfgs = "all"
 INVARIANTS Emit
 CHECK_DEADLOCK FALSE
